@@ -27,25 +27,25 @@ type thread struct {
 type Choice struct{ Pick, Opts int }
 
 var (
-	mu         sync.Mutex // guards setup/teardown
-	active     bool
-	threads    []*thread
-	pending    []func() // go statements executed outside a controlled run
-	cur        *thread
-	prefix     []int    // forced picks for the first scheduling points
-	Trace      []Choice // decisions taken in this run
-	Sched      []int    // thread id chosen at each scheduling point
-	preempts   int
-	MaxPreempt = -1 // <0: unbounded
-	MaxSteps   = 5000
-	SpinLimit  = 150 // consecutive scheduling points of one thread before a forced hand-over
-	lastRun    = -1
+	mu          sync.Mutex // guards setup/teardown
+	active      bool
+	threads     []*thread
+	pending     []func() // go statements executed outside a controlled run
+	cur         *thread
+	prefix      []int    // forced picks for the first scheduling points
+	Trace       []Choice // decisions taken in this run
+	Sched       []int    // thread id chosen at each scheduling point
+	preempts    int
+	MaxPreempt  = -1 // <0: unbounded
+	MaxSteps    = 5000
+	SpinLimit   = 150 // consecutive scheduling points of one thread before a forced hand-over
+	lastRun     = -1
 	consecutive int
-	steps      int
-	Aborted    string // non-empty: run was cut (step bound, deadlock, panic)
-	finished   chan struct{}
-	Acc        []int // thread id of every logged (sync) access, in execution order
-	AccChoice  []int // parallel to Acc: the select case taken (index among the ready ones), -1 otherwise
+	steps       int
+	Aborted     string // non-empty: run was cut (step bound, deadlock, panic)
+	finished    chan struct{}
+	Acc         []int // thread id of every logged (sync) access, in execution order
+	AccChoice   []int // parallel to Acc: the select case taken (index among the ready ones), -1 otherwise
 	// Picker, when set, decides the scheduling points beyond the forced prefix:
 	// it gets the ids of the runnable threads (the current one first when
 	// canStay) and returns an index into them.
